@@ -91,14 +91,15 @@ def accept_cases(draw, tier):
     if draw(st.integers(0, 4)) == 0:
         spec = draw(GC.unit_chain_specs(terms=("a", "b") if two else ("a",)))
     else:
-        spec = draw(GC.cfg_specs(max_vars=4 if tier == "quick" else 5, terms=("a", "b") if two else ("a",), simple=draw(st.booleans())))
+        spec = draw(GC.cfg_specs(max_vars=4 if tier == "quick" else 5, terms=("a", "b") if two else ("a",), simple=draw(st.booleans()),
+                                 max_len=6 if draw(st.integers(0, 3)) == 0 else 4))
     alt = spec["V"][draw(st.integers(0, len(spec["V"]) - 1))] if draw(st.booleans()) else None
     return {"cfg": spec, "L": 4 if two else 6, "alt_start": alt}
 
 
 @st.composite
 def cyk_cases(draw, tier):
-    spec = draw(GC.cnf_specs(max_vars=4, max_rules=10))
+    spec = draw(st.one_of(GC.cnf_specs(max_vars=4, max_rules=10), GC.cnf_specs(max_vars=4, max_rules=10), GC.multichar_cnf_specs()))
     w = draw(st.text(alphabet=spec["T"], min_size=1, max_size=7))
     return {"cfg": spec, "w": w}
 
